@@ -6,7 +6,7 @@ EXPLANATION = ('A writer performs back-to-back updates (both words of a 2-word v
                'overlaps an update functor on the same instance yields a mixed snapshot (assert #1); reads must be monotone; afterwards both '
                'instances must contain every update exactly once.')
 ASSUMPTIONS = ['1 writer (std::mutex modelled as a blocking flag), 1-2 readers, 2 updates; writer wait loops beyond U spins are outside the bound']
-TIMEOUT = {'quick': 300, 'thorough': 2400}
+TIMEOUT = {'quick': 900, 'thorough': 2400}
 SRC = 'C13/left_right.cpp'
 
 
